@@ -24,12 +24,30 @@
 //! synthesized fonts of c02_shape/synth.rs ("synth/<name>"), each shaped with every text class
 //! string over its glyph roles.  `o.f` carries facts measured on the returned run (which special
 //! path was reached); they feed the vacuity counters only, never the verdict.
+//!
+//! Second strengthening: the font CASES of MC_ShaperFonts (file `<cases>.fonts`, one JSON object per
+//! line) become fonts through c02_shape/synth2.rs - graphs of contextual lookups that name each other
+//! (cycles, chains around the recursion limit, GSUB and GPOS, through Extension lookups) and fonts
+//! with a `morx` table and no GSUB (ligature / contextual / noncontextual subtables, several chains,
+//! tables that are adversarial for totality) - plus seeded random morx programs.  A worker forks one
+//! child per stretch of jobs: when the child dies (stack exhaustion = SIGSEGV / SIGABRT) or exceeds
+//! the CPU budget of the job, the parent - which still holds the plan - knows from a shared counter
+//! which job was running, records Abort / Timeout for exactly that job and forks again behind it.
+//! After two timeouts / three deaths on one font the rest of the font's jobs is recorded as Skipped,
+//! after MAX_DEATHS_PER_SHARD the rest of the shard.  `plan_*` counters are computed from the plan
+//! (inputs), never from what allsorts returned.
 #[path = "c02_shape/enc_gpos.rs"]
 mod enc_gpos;
 #[path = "c02_shape/enc_gsub.rs"]
 mod enc_gsub;
+#[path = "c02_shape/enc_morx.rs"]
+mod enc_morx;
+#[path = "c02_shape/rnd_morx.rs"]
+mod rnd_morx;
 #[path = "c02_shape/synth.rs"]
 mod synth;
+#[path = "c02_shape/synth2.rs"]
+mod synth2;
 
 use allsorts::binary::read::ReadScope;
 use allsorts::font::{Font, MatchingPresentation};
@@ -50,8 +68,13 @@ use vh::fontgen::{read_sfnt_dir, tag_str};
 use vh::sup::{guarded, Outcome};
 use vh::util::{read_ndjson, repo_root};
 
-const CPU_BUDGET_NS: u64 = 2_000_000_000; // per job (three calls), thread CPU time
+const CPU_BUDGET_MS: u64 = 2_000; // per job (three calls), thread CPU time; SynthFont.budget_ms for synthesized fonts
 const EXIT_TIMEOUT: i32 = 75;
+/// after this many timeouts / process deaths on one (font, corruption) the rest of its jobs is skipped
+const GROUP_TIMEOUTS: u32 = 2;
+const GROUP_DEATHS: u32 = 3;
+/// after this many timeouts + deaths the rest of a shard is skipped
+const MAX_DEATHS_PER_SHARD: u32 = 60;
 
 // ---- deterministic hashing ------------------------------------------------------------------
 
@@ -214,10 +237,28 @@ struct FontEntry {
     rel: String, // path relative to tests/fonts
     script: &'static str,
     variable: bool,
-    synth: Option<usize>, // index into synth::catalog()
+    synth: Option<usize>, // index into the catalogue
+    via: String,          // how the font is shaped: GSUB | morx | morx/<subtable type> | none
+    budget_ms: u64,       // thread-CPU budget of one call sequence on this font
+    ckey: u64,            // what the seeded corruptions of the font are derived from
 }
 
-fn font_entries() -> Vec<FontEntry> {
+/// the synthesized fonts of one run: the fixed catalogue, then the fonts of the TLC font cases and
+/// the seeded random morx programs
+fn full_catalog(cases_path: &str, tier: &str, seed: u64) -> Vec<SynthFont> {
+    let mut c = synth::catalog();
+    let fc = format!("{}.fonts", cases_path);
+    let font_cases: Vec<Value> = if std::path::Path::new(&fc).exists() { read_ndjson(&fc) } else { Vec::new() };
+    c.extend(synth2::catalog2(&font_cases, tier, seed));
+    c
+}
+
+fn via_of_bytes(b: &[u8]) -> String {
+    let has = |t: &str| read_sfnt_dir(b, 0).map_or(false, |d| d.records.iter().any(|r| tag_str(r.0) == t));
+    if has("GSUB") { "GSUB".into() } else if has("morx") { "morx".into() } else { "none".into() }
+}
+
+fn font_entries(catalog: &[SynthFont]) -> Vec<FontEntry> {
     let dir_script: &[(&str, &str)] = &[
         ("arabic", "arab"), ("bengali", "beng"), ("devanagari", "deva"), ("gujarati", "gujr"), ("gurmukhi", "guru"),
         ("kannada", "knda"), ("khmer", "khmr"), ("malayalam", "mlym"), ("myanmar", "mymr"), ("oriya", "orya"),
@@ -252,24 +293,27 @@ fn font_entries() -> Vec<FontEntry> {
             };
             if let Some(script) = script {
                 // only fonts allsorts loads are inside the property's quantifier
-                let loads = std::fs::read(&f).ok().map_or(false, |b| {
-                    matches!(guarded(|| {
-                        let scope = ReadScope::new(&b);
-                        let fd = scope.read::<FontData<'_>>().ok()?;
-                        let provider = fd.table_provider(0).ok()?;
-                        Font::new(provider).ok().map(|_| ())
-                    }), Outcome::Returned(Some(())))
-                });
+                let bytes = std::fs::read(&f).unwrap_or_default();
+                let loads = matches!(guarded(|| {
+                    let scope = ReadScope::new(&bytes);
+                    let fd = scope.read::<FontData<'_>>().ok()?;
+                    let provider = fd.table_provider(0).ok()?;
+                    Font::new(provider).ok().map(|_| ())
+                }), Outcome::Returned(Some(())));
                 if !loads {
                     continue;
                 }
                 let variable = dname == "variable" || fname.contains("-VF");
-                out.push(FontEntry { rel: format!("{}/{}", dname, fname), script, variable, synth: None });
+                out.push(FontEntry { rel: format!("{}/{}", dname, fname), script, variable, synth: None, via: via_of_bytes(&bytes), budget_ms: CPU_BUDGET_MS, ckey: out.len() as u64 });
             }
         }
     }
-    for (si, sf) in synth::catalog().iter().enumerate() {
-        out.push(FontEntry { rel: format!("synth/{}", sf.name), script: "latn", variable: sf.fvar, synth: Some(si) });
+    let n_fixed = synth::catalog().len();
+    for (si, sf) in catalog.iter().enumerate() {
+        // fonts of the fixed catalogue: their position (as before the second strengthening); fonts made
+        // from font cases: their name, so that a replay outside the plan corrupts the same bytes
+        let ckey = if si < n_fixed { out.len() as u64 } else { sf.name.bytes().fold(0xC02u64, |a, b| mix(a ^ b as u64)) };
+        out.push(FontEntry { rel: format!("synth/{}", sf.name), script: "latn", variable: sf.fvar, synth: Some(si), via: synth2::via(sf), budget_ms: sf.budget_ms, ckey });
     }
     out
 }
@@ -310,9 +354,8 @@ fn alien_script(script: &'static str, x: u64) -> &'static str {
     others[(x % others.len() as u64) as usize]
 }
 
-fn build_plan(tier: &str, seed: u64, cases: &[Case]) -> (Vec<FontEntry>, Vec<Job>) {
-    let fonts = font_entries();
-    let catalog = synth::catalog();
+fn build_plan(tier: &str, seed: u64, cases: &[Case], catalog: &[SynthFont]) -> (Vec<FontEntry>, Vec<Job>) {
+    let fonts = font_entries(catalog);
     let quick = tier == "quick";
     let mut jobs = Vec::new();
     // repository fonts of each script
@@ -429,14 +472,22 @@ fn build_plan(tier: &str, seed: u64, cases: &[Case]) -> (Vec<FontEntry>, Vec<Job
     }
     // Part D: every text class string over the roles of a synthesized font, on that font
     let alien_cycle: [&'static str; 10] = ["DFLT", "arab", "deva", "khmr", "mymr", "thai", "syrc", "hang", "mlm2", "lao "];
+    // the strings over an alphabet, computed once per alphabet (hundreds of fonts share a few)
+    let mut over: std::collections::HashMap<Vec<&'static str>, Vec<usize>> = std::collections::HashMap::new();
+    // the thorough tier shapes the fonts with a length cap with strings one class longer
+    let cap = |sf: &SynthFont| if quick { sf.max_len } else { sf.max_len.saturating_add(1) };
     for (fi, f) in fonts.iter().enumerate() {
         let sf = match f.synth { Some(si) => &catalog[si], None => continue };
-        for &ci in &txt {
+        let mine = over
+            .entry(sf.alphabet.to_vec())
+            .or_insert_with(|| txt.iter().copied().filter(|&ci| cases[ci].cls.iter().all(|c| sf.alphabet.contains(&c.as_str()))).collect())
+            .clone();
+        for ci in mine {
             let case = &cases[ci];
-            if !case.cls.iter().all(|c| sf.alphabet.contains(&c.as_str())) {
+            let n = case.cls.len();
+            if n > cap(sf) {
                 continue;
             }
-            let n = case.cls.len();
             let x = h(&[seed, ci as u64, fi as u64, 0xD]);
             let has_slash = case.cls.iter().any(|c| c == "Sl");
             if n >= 6 && sf.alphabet.len() > 5 && !has_slash && (x >> 24) % 4 != 0 {
@@ -449,7 +500,7 @@ fn build_plan(tier: &str, seed: u64, cases: &[Case]) -> (Vec<FontEntry>, Vec<Job
                 let mut j = mk(fi, ci, 0, sf.configs[k], (y >> 16) % 2 == 0, y, &fonts);
                 // the first configuration always runs under the font's own script; the others reach the
                 // script shapers (and DFLT) through a foreign script tag once in four
-                j.script = if k > 0 && y % 4 == 0 && sf.family != "extreme" { alien_cycle[((y >> 8) % alien_cycle.len() as u64) as usize] } else { "latn" };
+                j.script = if k > 0 && y % 4 == 0 && sf.family != "extreme" && sf.aliens { alien_cycle[((y >> 8) % alien_cycle.len() as u64) as usize] } else { "latn" };
                 j.vert = if sf.family == "vert" { (y >> 9) % 2 == 0 } else { (y >> 9) % 8 == 0 };
                 jobs.push(j);
             }
@@ -462,10 +513,10 @@ fn build_plan(tier: &str, seed: u64, cases: &[Case]) -> (Vec<FontEntry>, Vec<Job
     for fi in 0..fonts.len() {
         let pool: Vec<usize> = match fonts[fi].synth {
             None => long_cases.clone(),
-            Some(si) => long_txt.iter().copied().filter(|&i| cases[i].cls.iter().all(|c| catalog[si].alphabet.contains(&c.as_str()))).collect(),
+            Some(si) => long_txt.iter().copied().filter(|&i| cases[i].cls.len() <= cap(&catalog[si]) && cases[i].cls.iter().all(|c| catalog[si].alphabet.contains(&c.as_str()))).collect(),
         };
-        if pool.is_empty() || fonts[fi].synth.map_or(false, |si| catalog[si].family == "extreme") {
-            continue; // the fonts with extreme values are shaped as they are only
+        if pool.is_empty() || fonts[fi].synth.map_or(false, |si| catalog[si].family == "extreme" || !catalog[si].corruptible) {
+            continue; // the fonts with extreme values (and those marked so) are shaped as they are only
         }
         let n_corrupt = if fonts[fi].synth.is_some() { n_corrupt / 2 } else { n_corrupt };
         for k in 1..=n_corrupt {
@@ -492,7 +543,7 @@ fn build_plan(tier: &str, seed: u64, cases: &[Case]) -> (Vec<FontEntry>, Vec<Job
 const TARGETS: [&str; 5] = ["GSUB", "GPOS", "GDEF", "kern", "morx"];
 
 /// Seeded corruption inside the layout tables only. Returns the bytes and a description.
-fn corrupt_font(orig: &[u8], seed: u64, fi: usize, k: u32) -> Option<(Vec<u8>, String)> {
+fn corrupt_font(orig: &[u8], seed: u64, fi: u64, k: u32) -> Option<(Vec<u8>, String)> {
     let dir = read_sfnt_dir(orig, 0)?;
     if dir.version == 0x7474_6366 {
         return None; // ttcf
@@ -507,7 +558,7 @@ fn corrupt_font(orig: &[u8], seed: u64, fi: usize, k: u32) -> Option<(Vec<u8>, S
     if targets.is_empty() {
         return None;
     }
-    let mut x = h(&[seed, fi as u64, k as u64, 0xBAD]);
+    let mut x = h(&[seed, fi, k as u64, 0xBAD]);
     let mut next = || {
         x = mix(x);
         x
@@ -635,8 +686,54 @@ fn clamp_idx(i: usize) -> i64 {
 struct Shared {
     active: AtomicBool,
     start_cpu: AtomicU64,
+    budget_ns: AtomicU64,                 // CPU budget of the job that is running
     current: Mutex<Option<(u64, Value)>>, // (job index, args)
     writer: Mutex<Option<std::io::BufWriter<std::fs::File>>>,
+    progress: Progress,
+}
+
+impl Shared {
+    fn new(writer: Option<std::io::BufWriter<std::fs::File>>, progress: Progress) -> Shared {
+        Shared {
+            active: AtomicBool::new(false),
+            start_cpu: AtomicU64::new(0),
+            budget_ns: AtomicU64::new(CPU_BUDGET_MS * 1_000_000),
+            current: Mutex::new(None),
+            writer: Mutex::new(writer),
+            progress,
+        }
+    }
+}
+
+/// One counter in memory that a worker shares with the children it forks: the index of the first job
+/// of the plan that has no event yet.  A child moves it on after every event it has flushed; when the
+/// child dies the parent reads which job was running.
+#[derive(Clone, Copy)]
+struct Progress(*mut u64);
+unsafe impl Send for Progress {}
+unsafe impl Sync for Progress {}
+
+impl Progress {
+    fn shared() -> Progress {
+        let p = unsafe {
+            libc::mmap(std::ptr::null_mut(), 8, libc::PROT_READ | libc::PROT_WRITE, libc::MAP_SHARED | libc::MAP_ANONYMOUS, -1, 0)
+        };
+        assert!(p != libc::MAP_FAILED, "mmap of the progress counter");
+        Progress(p as *mut u64)
+    }
+    /// a counter nobody else looks at (exec / one)
+    fn private() -> Progress {
+        Progress(Box::leak(Box::new(0u64)) as *mut u64)
+    }
+    fn cell(&self) -> &AtomicU64 {
+        unsafe { &*(self.0 as *const AtomicU64) }
+    }
+    fn get(&self) -> u64 {
+        self.cell().load(Ordering::SeqCst)
+    }
+    fn set(&self, v: u64) {
+        self.cell().store(v, Ordering::SeqCst)
+    }
 }
 
 fn thread_cpu_ns() -> u64 {
@@ -663,8 +760,12 @@ fn job_args(fonts: &[FontEntry], cases: &[Case], j: &Job, idx: usize, wf: bool, 
     let empty: Vec<String> = Vec::new();
     let cls = cases.get(j.case).map(|c| &c.cls).unwrap_or(&empty);
     let fam = if cases.get(j.case).map_or(false, |c| c.txt) { "txt" } else { "syl" };
+    let via = &fonts[j.font].via;
     json!({
         "fam": fam,
+        // the subtable type is known for the intact synthesized font only
+        "via": if j.corrupt == 0 { via.as_str() } else { via.split('/').next().unwrap_or("") },
+        "budget_ms": fonts[j.font].budget_ms,
         "vert": j.vert,
         "job": idx,
         "font": fonts[j.font].rel,
@@ -797,6 +898,39 @@ fn facts(j: &Job, sf: Option<&SynthFont>, mapped: &[(u16, Vec<char>)], infos: &[
     if nontrivial {
         hit(&format!("synth_{}_nontrivial", sf.family));
     }
+    // --- the families of the second strengthening
+    if sf.family.starts_with("morx") {
+        let is_lig = |i: &Info| matches!(i.glyph.glyph_index, G_LIG2 | G_LIG3 | G_LIG4) && i.glyph.unicodes.len() >= 2;
+        if infos.iter().any(is_lig) {
+            hit("morx_ligature_formed");
+            if infos.len() >= 2 && infos.last().map_or(false, is_lig) {
+                hit("morx_ligature_at_run_end");
+            }
+            if infos.len() >= 2 && infos.first().map_or(false, is_lig) {
+                hit("morx_ligature_at_run_start");
+            }
+            if infos.len() >= 3 && infos[1..infos.len() - 1].iter().any(is_lig) {
+                hit("morx_ligature_inside_run");
+            }
+        }
+        if sf.tags.iter().any(|t| t == "morx_contextual") && nontrivial {
+            hit("morx_contextual_substitution");
+        }
+        if sf.tags.iter().any(|t| t == "morx_noncontextual") && nontrivial {
+            hit("morx_noncontextual_substitution");
+        }
+        if shape_err {
+            hit("morx_shape_err");
+        }
+    }
+    if sf.family == "lkp" {
+        if shape_err {
+            hit("lkp_shape_err");
+        }
+        if sf.name.contains("-chain-") && infos.iter().any(|i| i.glyph.glyph_index == G_XALT || i.kerning == 11) {
+            hit("lkp_chain_terminal_applied");
+        }
+    }
     if let Some(counts) = sf.marklig {
         for (k, info) in infos.iter().enumerate() {
             if !is_mark(info.glyph.glyph_index) {
@@ -894,7 +1028,7 @@ fn run_group(
     let (bytes, cdesc) = if j0.corrupt == 0 {
         (orig, String::new())
     } else {
-        match corrupt_font(&orig, seed, j0.font, j0.corrupt) {
+        match corrupt_font(&orig, seed, fonts[j0.font].ckey, j0.corrupt) {
             Some(x) => x,
             None => {
                 // nothing to corrupt in this font: the jobs are recorded as not applicable
@@ -953,6 +1087,7 @@ fn run_group(
             let a = job_args(fonts, cases, j, idx, wf, ng, &cdesc);
             let text: String = a["text"].as_array().unwrap().iter().map(|c| char::from_u32(c.as_u64().unwrap() as u32).unwrap()).collect();
             *shared.current.lock().unwrap() = Some((idx as u64, a.clone()));
+            shared.budget_ns.store(fonts[j.font].budget_ms * 1_000_000, Ordering::SeqCst);
             shared.start_cpu.store(thread_cpu_ns(), Ordering::SeqCst);
             shared.active.store(true, Ordering::SeqCst);
 
@@ -1043,6 +1178,7 @@ fn write_event(shared: &Arc<Shared>, i: u64, a: &Value, o: Value) {
     } else {
         println!("{}", event(i, a, o));
     }
+    shared.progress.set(i + 1);
 }
 
 #[derive(Default)]
@@ -1125,69 +1261,203 @@ impl Stats {
     }
 }
 
-fn worker(tier: &str, seed: u64, cases_path: &str, trace: Option<&str>, from: usize, to: usize) {
-    let cases = load_cases(cases_path);
-    let (fonts, jobs) = build_plan(tier, seed, &cases);
-    let catalog = synth::catalog();
-    let to = to.min(jobs.len());
-    let writer = trace.map(|t| {
-        std::io::BufWriter::new(std::fs::OpenOptions::new().create(true).append(true).open(t).unwrap_or_else(|e| panic!("open {}: {}", t, e)))
-    });
-    let shared = Arc::new(Shared {
-        active: AtomicBool::new(false),
-        start_cpu: AtomicU64::new(0),
-        current: Mutex::new(None),
-        writer: Mutex::new(writer),
-    });
-    // watchdog: thread CPU time of the main thread, deterministic w.r.t. machine load
+/// the watchdog of a process that executes jobs: thread CPU time of the main thread (deterministic
+/// w.r.t. machine load) against the budget of the job that is running
+fn spawn_watchdog(shared: &Arc<Shared>) {
     let main_thread = unsafe { libc::pthread_self() } as usize;
-    {
-        let shared = shared.clone();
-        std::thread::spawn(move || {
-            let mut clock: libc::clockid_t = 0;
-            if unsafe { libc::pthread_getcpuclockid(main_thread as libc::pthread_t, &mut clock) } != 0 {
-                return;
+    let shared = shared.clone();
+    std::thread::spawn(move || {
+        let mut clock: libc::clockid_t = 0;
+        if unsafe { libc::pthread_getcpuclockid(main_thread as libc::pthread_t, &mut clock) } != 0 {
+            return;
+        }
+        loop {
+            std::thread::sleep(std::time::Duration::from_millis(25));
+            if !shared.active.load(Ordering::SeqCst) {
+                continue;
             }
-            loop {
-                std::thread::sleep(std::time::Duration::from_millis(50));
-                if !shared.active.load(Ordering::SeqCst) {
-                    continue;
+            let mut ts = libc::timespec { tv_sec: 0, tv_nsec: 0 };
+            unsafe { libc::clock_gettime(clock, &mut ts) };
+            let now = ts.tv_sec as u64 * 1_000_000_000 + ts.tv_nsec as u64;
+            let start = shared.start_cpu.load(Ordering::SeqCst);
+            let budget = shared.budget_ns.load(Ordering::SeqCst);
+            if shared.active.load(Ordering::SeqCst) && now > start + budget {
+                let cur = shared.current.lock().unwrap().clone();
+                if let Some((i, a)) = cur {
+                    write_event(&shared, i, &a, skipped_obs("Timeout", &format!("CPU budget of {} ms exceeded", budget / 1_000_000)));
                 }
-                let mut ts = libc::timespec { tv_sec: 0, tv_nsec: 0 };
-                unsafe { libc::clock_gettime(clock, &mut ts) };
-                let now = ts.tv_sec as u64 * 1_000_000_000 + ts.tv_nsec as u64;
-                let start = shared.start_cpu.load(Ordering::SeqCst);
-                if shared.active.load(Ordering::SeqCst) && now > start + CPU_BUDGET_NS {
-                    let cur = shared.current.lock().unwrap().clone();
-                    if let Some((i, a)) = cur {
-                        write_event(&shared, i, &a, skipped_obs("Timeout", "CPU budget of 2 s exceeded"));
-                    }
-                    std::process::exit(EXIT_TIMEOUT);
-                }
+                std::process::exit(EXIT_TIMEOUT);
             }
-        });
-    }
+        }
+    });
+}
+
+struct Plan {
+    cases: Vec<Case>,
+    catalog: Vec<SynthFont>,
+    fonts: Vec<FontEntry>,
+    jobs: Vec<Job>,
+}
+
+fn load_plan(tier: &str, seed: u64, cases_path: &str) -> Plan {
+    let cases = load_cases(cases_path);
+    let catalog = full_catalog(cases_path, tier, seed);
+    let (fonts, jobs) = build_plan(tier, seed, &cases, &catalog);
+    Plan { cases, catalog, fonts, jobs }
+}
+
+/// executes jobs [from, to) in this process, one event per job; `stats_path`: counters are appended
+/// per font group (what a dying process loses is the group it died in)
+fn run_range(plan: &Plan, shared: &Arc<Shared>, seed: u64, from: usize, to: usize, stats_path: Option<&str>) {
     let mut stats = Stats::default();
     let mut idx = from;
     while idx < to {
         let mut end = idx + 1;
-        while end < to && jobs[end].font == jobs[idx].font && jobs[end].corrupt == jobs[idx].corrupt {
+        while end < to && plan.jobs[end].font == plan.jobs[idx].font && plan.jobs[end].corrupt == plan.jobs[idx].corrupt {
             end += 1;
         }
-        run_group(&shared, &fonts, &catalog, &cases, &jobs, idx..end, seed, &mut stats);
+        run_group(shared, &plan.fonts, &plan.catalog, &plan.cases, &plan.jobs, idx..end, seed, &mut stats);
+        if let Some(sp) = stats_path {
+            append_line(sp, &stats.json().to_string());
+            stats = Stats::default();
+        }
         idx = end;
     }
-    if trace.is_some() {
-        println!("{}", stats.json());
+}
+
+fn append_line(path: &str, line: &str) {
+    let mut f = std::fs::OpenOptions::new().create(true).append(true).open(path).unwrap_or_else(|e| panic!("open {}: {}", path, e));
+    writeln!(f, "{}", line).expect("append");
+}
+
+/// a partial last line (a process died while writing) is cut off
+fn fix_tail(path: &str) {
+    if let Ok(b) = std::fs::read(path) {
+        if b.last().map_or(false, |&c| c != b'\n') {
+            let keep = b.iter().rposition(|&c| c == b'\n').map_or(0, |p| p + 1);
+            let f = std::fs::OpenOptions::new().write(true).open(path).expect("open trace");
+            f.set_len(keep as u64).expect("truncate");
+        }
     }
+}
+
+fn append_event(path: &str, ev: &Value) {
+    fix_tail(path);
+    append_line(path, &ev.to_string());
+}
+
+/// Executes jobs [from, to) of the plan (None: one job, printed; Some: the shard of that trace file).
+fn worker(tier: &str, seed: u64, cases_path: &str, trace: Option<&str>, from: usize, to: usize) {
+    let plan = load_plan(tier, seed, cases_path);
+    let to = to.min(plan.jobs.len());
+    match trace {
+        Some(t) => run_shard(&plan, seed, t, from, to),
+        None => {
+            let shared = Arc::new(Shared::new(None, Progress::private()));
+            spawn_watchdog(&shared);
+            run_range(&plan, &shared, seed, from, to, None);
+        }
+    }
+}
+
+/// Executes the jobs [from, to) of a shard into `trace`, resuming behind the events that are on file.
+/// The jobs run in forked children; this process only keeps the plan and the books: when a child
+/// dies or runs out of budget, the shared counter says in which job.
+fn run_shard(plan: &Plan, seed: u64, trace: &str, from: usize, to: usize) {
+    let stats_path = format!("{}.stats", trace);
+    fix_tail(trace);
+    let progress = Progress::shared();
+    progress.set((from + count_lines(trace)) as u64);
+    let same_group = |a: usize, b: usize| plan.jobs[a].font == plan.jobs[b].font && plan.jobs[a].corrupt == plan.jobs[b].corrupt;
+    let args_of = |k: usize| -> Value {
+        let j = &plan.jobs[k];
+        let f = &plan.fonts[j.font];
+        let wf = j.corrupt == 0 && f.synth.map_or(true, |si| plan.catalog[si].wf);
+        let cdesc = if j.corrupt == 0 {
+            String::new()
+        } else {
+            corrupt_font(&font_bytes(f, &plan.catalog), seed, f.ckey, j.corrupt).map_or("none".to_string(), |x| x.1)
+        };
+        job_args(&plan.fonts, &plan.cases, j, k, wf, 0, &cdesc)
+    };
+    let (mut deaths, mut aborts, mut timeouts, mut abandoned) = (0u32, 0u64, 0u64, 0u64);
+    let mut group: (usize, u32, u32) = (usize::MAX, 0, 0); // (a job of the group, timeouts, deaths)
+    while (progress.get() as usize) < to {
+        let start = progress.get() as usize;
+        std::io::stdout().flush().ok();
+        let pid = unsafe { libc::fork() };
+        assert!(pid >= 0, "fork");
+        if pid == 0 {
+            let writer = std::io::BufWriter::new(std::fs::OpenOptions::new().create(true).append(true).open(trace).unwrap_or_else(|e| panic!("open {}: {}", trace, e)));
+            let shared = Arc::new(Shared::new(Some(writer), progress));
+            spawn_watchdog(&shared);
+            run_range(plan, &shared, seed, start, to, Some(&stats_path));
+            std::process::exit(0);
+        }
+        let mut status: libc::c_int = 0;
+        let r = unsafe { libc::waitpid(pid, &mut status, 0) };
+        assert!(r == pid, "waitpid");
+        let exited = libc::WIFEXITED(status);
+        let code = if exited { libc::WEXITSTATUS(status) } else { -1 };
+        if exited && code == 0 {
+            break;
+        }
+        deaths += 1;
+        let timed_out = exited && code == EXIT_TIMEOUT;
+        let bad;
+        if timed_out {
+            timeouts += 1; // the child has written the Timeout event itself and moved the counter on
+            bad = (progress.get() as usize).saturating_sub(1);
+            fix_tail(trace);
+        } else {
+            // died: the counter names the job that was running
+            bad = progress.get() as usize;
+            if bad >= to {
+                eprintln!("child died after its last job: status {}", status);
+                break;
+            }
+            aborts += 1;
+            let how = if libc::WIFSIGNALED(status) { format!("signal {}", libc::WTERMSIG(status)) } else { format!("exit code {}", code) };
+            append_event(trace, &event(bad as u64, &args_of(bad), skipped_obs("Abort", &format!("the process died in this job: {}", how))));
+            progress.set(bad as u64 + 1);
+        }
+        if group.0 == usize::MAX || !same_group(group.0, bad) {
+            group = (bad, 0, 0);
+        }
+        if timed_out {
+            group.1 += 1;
+        } else {
+            group.2 += 1;
+        }
+        let give_up_shard = deaths >= MAX_DEATHS_PER_SHARD;
+        if group.1 >= GROUP_TIMEOUTS || group.2 >= GROUP_DEATHS || give_up_shard {
+            let why = if give_up_shard { "not executed: too many timeouts / process deaths in this shard" } else { "not executed: repeated timeouts / process deaths on this font" };
+            let mut k = progress.get() as usize;
+            while k < to && (give_up_shard || same_group(bad, k)) {
+                let o = json!({"map": "Skipped", "mapped": [], "shape": "Skipped", "run": [], "pos": "Skipped", "npos": -1, "msg": why, "f": {}});
+                append_event(trace, &event(k as u64, &args_of(k), o));
+                abandoned += 1;
+                k += 1;
+            }
+            progress.set(k as u64);
+        }
+    }
+    append_line(&stats_path, &json!({"aborts": aborts, "timeouts": timeouts, "jobs_abandoned_after_deaths": abandoned}).to_string());
 }
 
 /// Execute one explicitly described job (replay of a finding): JSON with the fields of an event's
 /// `a` plus `seed`.
 fn exec_one(spec: &str) {
     let a: Value = serde_json::from_str(spec).expect("json");
-    let fonts = font_entries();
+    let seed = a["seed"].as_u64().unwrap_or(1);
     let rel = a["font"].as_str().expect("font");
+    let mut catalog = synth::catalog();
+    if let Some(name) = rel.strip_prefix("synth/") {
+        if !catalog.iter().any(|f| f.name == name) {
+            catalog.push(synth2::from_name(name, seed).unwrap_or_else(|| panic!("no synthesized font {}", name)));
+        }
+    }
+    let fonts = font_entries(&catalog);
     let fi = fonts.iter().position(|f| f.rel == rel).unwrap_or_else(|| panic!("font {} is not in the plan", rel));
     let st = |k: &str| -> &'static str { Box::leak(a[k].as_str().unwrap_or("").to_string().into_boxed_str()) };
     let script = st("script");
@@ -1207,104 +1477,153 @@ fn exec_one(spec: &str) {
         salt: 0,
         text: Some(a["text"].as_array().expect("text").iter().map(|c| c.as_u64().unwrap() as u32).collect()),
     };
-    let shared = Arc::new(Shared { active: AtomicBool::new(false), start_cpu: AtomicU64::new(0), current: Mutex::new(None), writer: Mutex::new(None) });
+    let shared = Arc::new(Shared::new(None, Progress::private()));
+    spawn_watchdog(&shared);
     let mut stats = Stats::default();
     let jobs = vec![job];
-    run_group(&shared, &fonts, &synth::catalog(), &[], &jobs, 0..1, a["seed"].as_u64().unwrap_or(1), &mut stats);
+    run_group(&shared, &fonts, &catalog, &[], &jobs, 0..1, seed, &mut stats);
 }
 
 fn count_lines(path: &str) -> usize {
     std::fs::read(path).map(|b| b.iter().filter(|&&c| c == b'\n').count()).unwrap_or(0)
 }
 
-fn supervisor(tier: &str, seed: u64, cases_path: &str, outdir: &str, nworkers: usize) {
-    let cases = load_cases(cases_path);
-    let (fonts, jobs) = build_plan(tier, seed, &cases);
-    let n = jobs.len();
-    std::fs::create_dir_all(outdir).expect("outdir");
-    let exe = std::env::current_exe().expect("exe");
-    let per = (n + nworkers - 1) / nworkers.max(1);
-    let mut handles = Vec::new();
-    for w in 0..nworkers {
-        let (from, to) = (w * per, ((w + 1) * per).min(n));
-        if from >= to {
+/// counters of the plan: computed from the inputs only (which fonts, which texts), never from what
+/// allsorts returned
+fn plan_counters(plan: &Plan) -> BTreeMap<String, u64> {
+    let mut c: BTreeMap<String, u64> = BTreeMap::new();
+    let mut bump = |k: String, n: u64| *c.entry(k).or_insert(0) += n;
+    let mut seen_font = vec![false; plan.fonts.len()];
+    for j in &plan.jobs {
+        let f = &plan.fonts[j.font];
+        let sf = match f.synth {
+            Some(si) => &plan.catalog[si],
+            None => continue,
+        };
+        if !seen_font[j.font] {
+            seen_font[j.font] = true;
+            bump(format!("plan_fonts_{}", sf.family), 1);
+        }
+        if j.corrupt > 0 {
+            bump(format!("plan_corrupt_jobs_{}", sf.family), 1);
             continue;
         }
-        let trace = format!("{}/trace.{}.ndjson", outdir, w);
-        let _ = std::fs::remove_file(&trace);
-        let exe = exe.clone();
-        let (tier, cases_path) = (tier.to_string(), cases_path.to_string());
-        let fonts = fonts.clone();
-        let jobs_slice: Vec<Job> = jobs[from..to].to_vec();
-        let cases = cases.clone();
-        handles.push(std::thread::spawn(move || {
-            let mut agg: Vec<Value> = Vec::new();
-            let (mut aborts, mut timeouts, mut restarts) = (0u64, 0u64, 0u64);
-            loop {
-                let done = count_lines(&trace);
-                let start = from + done;
-                if start >= to {
-                    break;
+        bump(format!("plan_jobs_{}", sf.family), 1);
+        for t in &sf.tags {
+            bump(format!("plan_jobs_{}", t), 1);
+        }
+        // where a morx ligature f..f i sits in the text, and components left over at the end of text
+        if sf.tags.iter().any(|t| t == "morx_ligature") {
+            let ncomp: usize = sf.tags.iter().find_map(|t| t.strip_prefix("morx_lig_components_").and_then(|v| v.parse().ok())).unwrap_or(0);
+            let cls = &plan.cases[j.case].cls;
+            let word: Vec<&str> = std::iter::repeat("Lf").take(ncomp - 1).chain(std::iter::once("Li")).collect();
+            let n = cls.len();
+            if ncomp > 0 && n >= ncomp {
+                let at = |p: usize| (0..ncomp).all(|k| cls[p + k] == word[k]);
+                if at(0) && n > ncomp {
+                    bump("plan_jobs_morx_ligature_at_start".into(), 1);
                 }
-                let out = std::process::Command::new(&exe)
-                    .args(["worker", &tier, &seed.to_string(), &cases_path, &trace, &start.to_string(), &to.to_string()])
-                    .output()
-                    .expect("spawn worker");
-                let code = out.status.code();
-                if code == Some(0) {
-                    if let Some(l) = String::from_utf8_lossy(&out.stdout).lines().filter(|l| l.starts_with('{')).last() {
-                        if let Ok(v) = serde_json::from_str::<Value>(l) {
-                            agg.push(v);
-                        }
+                if at(n - ncomp) && n > ncomp {
+                    bump("plan_jobs_morx_ligature_at_end".into(), 1);
+                    if sf.tags.iter().any(|t| t == "morx_lig_action_entry_dont_advance") {
+                        bump("plan_jobs_morx_ligature_at_end_dont_advance".into(), 1);
                     }
-                    break;
                 }
-                restarts += 1;
-                if code == Some(EXIT_TIMEOUT) {
-                    timeouts += 1; // the child has written the Timeout event itself
-                    continue;
+                if n > ncomp + 1 && (1..n - ncomp).any(at) {
+                    bump("plan_jobs_morx_ligature_in_middle".into(), 1);
                 }
-                // died: the job after the last complete line is the offender
-                let done2 = count_lines(&trace);
-                let bad = from + done2;
-                if bad >= to || restarts > 10_000 {
-                    eprintln!("worker {} failed without progress: {:?} {}", w, out.status, String::from_utf8_lossy(&out.stderr));
-                    std::process::exit(3);
+                if n == ncomp && at(0) {
+                    bump("plan_jobs_morx_ligature_whole_text".into(), 1);
                 }
-                aborts += 1;
-                let j = &jobs_slice[bad - from];
-                let a = job_args(&fonts, &cases, j, bad, j.corrupt == 0, 0, "?");
-                let ev = event(bad as u64, &a, skipped_obs("Abort", &format!("worker died: {:?}", out.status)));
-                let mut f = std::fs::OpenOptions::new().create(true).append(true).open(&trace).expect("append");
-                // a partial line left by the dead child is terminated first
-                let tail_ok = std::fs::read(&trace).map(|b| b.last().map_or(true, |&c| c == b'\n')).unwrap_or(true);
-                if !tail_ok {
-                    f.write_all(b"\n").unwrap();
-                }
-                writeln!(f, "{}", ev).unwrap();
             }
-            (agg, aborts, timeouts)
-        }));
+            if cls.last().map_or(false, |c| c == "Lf") {
+                bump("plan_jobs_morx_components_left_at_end_of_text".into(), 1);
+            }
+        }
+        if sf.family == "lkp" && plan.cases[j.case].cls.iter().any(|c| c == "Lx") {
+            bump("plan_jobs_lkp_text_matches".into(), 1);
+        }
+    }
+    c
+}
+
+fn supervisor(tier: &str, seed: u64, cases_path: &str, outdir: &str, nworkers: usize) {
+    let plan = load_plan(tier, seed, cases_path);
+    let n = plan.jobs.len();
+    std::fs::create_dir_all(outdir).expect("outdir");
+    // more shards than workers (fonts differ a lot in cost); every shard process is a fork of this
+    // one, which is single threaded and holds the plan
+    let nshards = (nworkers * 6).max(1);
+    let per = (n + nshards - 1) / nshards;
+    let shards: Vec<(usize, usize, usize)> = (0..nshards).map(|w| (w, w * per, ((w + 1) * per).min(n))).filter(|s| s.1 < s.2).collect();
+    let trace_of = |w: usize| format!("{}/trace.{}.ndjson", outdir, w);
+    for (w, _, _) in &shards {
+        let _ = std::fs::remove_file(trace_of(*w));
+        let _ = std::fs::remove_file(format!("{}.stats", trace_of(*w)));
+    }
+    let mut pending: Vec<(usize, usize, usize, u32)> = shards.iter().rev().map(|s| (s.0, s.1, s.2, 0)).collect();
+    let mut running: Vec<(libc::pid_t, (usize, usize, usize, u32))> = Vec::new();
+    let mut restarts = 0u64;
+    loop {
+        while running.len() < nworkers.max(1) {
+            let sh = match pending.pop() {
+                Some(x) => x,
+                None => break,
+            };
+            std::io::stdout().flush().ok();
+            let pid = unsafe { libc::fork() };
+            assert!(pid >= 0, "fork");
+            if pid == 0 {
+                run_shard(&plan, seed, &trace_of(sh.0), sh.1, sh.2);
+                std::process::exit(0);
+            }
+            running.push((pid, sh));
+        }
+        if running.is_empty() {
+            break;
+        }
+        let mut status: libc::c_int = 0;
+        let pid = unsafe { libc::waitpid(-1, &mut status, 0) };
+        let k = match running.iter().position(|r| r.0 == pid) {
+            Some(k) => k,
+            None => continue,
+        };
+        let (_, sh) = running.remove(k);
+        if !(libc::WIFEXITED(status) && libc::WEXITSTATUS(status) == 0) {
+            // the bookkeeping process of the shard failed (not a job): it resumes behind what is on file
+            restarts += 1;
+            if sh.3 >= 5 {
+                eprintln!("shard {} failed repeatedly: status {}", sh.0, status);
+                std::process::exit(3);
+            }
+            pending.push((sh.0, sh.1, sh.2, sh.3 + 1));
+        }
     }
     let mut total = serde_json::Map::new();
-    let (mut aborts, mut timeouts) = (0u64, 0u64);
-    for hnd in handles {
-        let (agg, a, t) = hnd.join().expect("join");
-        aborts += a;
-        timeouts += t;
-        for v in agg {
+    for (w, _, _) in &shards {
+        let sp = format!("{}.stats", trace_of(*w));
+        if !std::path::Path::new(&sp).exists() {
+            continue;
+        }
+        for v in read_ndjson(&sp) {
             for (k, x) in v.as_object().unwrap() {
                 let e = total.entry(k.clone()).or_insert(json!(0));
                 *e = json!(e.as_u64().unwrap_or(0) + x.as_u64().unwrap_or(0));
             }
         }
     }
+    for k in ["aborts", "timeouts", "jobs_abandoned_after_deaths"] {
+        total.entry(k.to_string()).or_insert(json!(0));
+    }
+    for (k, v) in plan_counters(&plan) {
+        total.insert(k, json!(v));
+    }
     total.insert("plan".into(), json!(n));
-    total.insert("fonts".into(), json!(fonts.len()));
-    total.insert("synth_fonts".into(), json!(fonts.iter().filter(|f| f.synth.is_some()).count()));
-    total.insert("aborts".into(), json!(aborts));
-    total.insert("timeouts".into(), json!(timeouts));
+    total.insert("fonts".into(), json!(plan.fonts.len()));
+    total.insert("synth_fonts".into(), json!(plan.fonts.iter().filter(|f| f.synth.is_some()).count()));
+    total.insert("worker_restarts".into(), json!(restarts));
     total.insert("workers".into(), json!(nworkers));
+    total.insert("shards".into(), json!(shards.len()));
     println!("{}", Value::Object(total));
 }
 
@@ -1318,15 +1637,20 @@ fn main() {
             worker(&args[2], args[3].parse().expect("seed"), &args[4], None, i, i + 1)
         }
         Some("exec") => exec_one(&args[2]),
+        // the bytes of one synthesized font (triage): font <name> <seed> <out file>
+        Some("font") => {
+            let seed: u64 = args[3].parse().expect("seed");
+            let sf = synth::catalog().into_iter().find(|f| f.name == args[2]).or_else(|| synth2::from_name(&args[2], seed)).expect("font name");
+            std::fs::write(&args[4], synth::build(&sf)).expect("write");
+        }
         Some("plan") => {
-            let cases = load_cases(&args[4]);
-            let (fonts, jobs) = build_plan(&args[2], args[3].parse().expect("seed"), &cases);
-            let corrupt = jobs.iter().filter(|j| j.corrupt > 0).count();
-            println!("{}", json!({"fonts": fonts.len(), "jobs": jobs.len(), "corrupt_jobs": corrupt,
-                                  "font_list": fonts.iter().map(|f| format!("{}:{}", f.rel, f.script)).collect::<Vec<_>>()}));
+            let plan = load_plan(&args[2], args[3].parse().expect("seed"), &args[4]);
+            let corrupt = plan.jobs.iter().filter(|j| j.corrupt > 0).count();
+            println!("{}", json!({"fonts": plan.fonts.len(), "jobs": plan.jobs.len(), "corrupt_jobs": corrupt, "counters": plan_counters(&plan),
+                                  "font_list": plan.fonts.iter().map(|f| format!("{}:{}", f.rel, f.script)).collect::<Vec<_>>()}));
         }
         _ => {
-            eprintln!("usage: c02_shape run <tier> <seed> <cases> <outdir> <nworkers> | worker ... | one <tier> <seed> <cases> <job> | plan <tier> <seed> <cases>");
+            eprintln!("usage: c02_shape run <tier> <seed> <cases> <outdir> <nworkers> | worker ... | one <tier> <seed> <cases> <job> | plan <tier> <seed> <cases> | exec <json> | font <name> <seed> <out>");
             std::process::exit(2);
         }
     }
